@@ -7,8 +7,8 @@ use crate::verdict::Violation;
 
 pub struct C07;
 
-pub const STALL_MICROS: u64 = 2_000_000;
-// Session halts the schedule after a call slower than 1.5 s, so a stalling case costs one slow
+pub const STALL_MICROS: u64 = 500_000;
+// Session halts the schedule after a call slower than 0.4 s of CPU, so a stalling case costs one slow
 // call per execution (three executions to confirm).
 
 fn slow(rec: &CallRec) -> bool {
@@ -67,7 +67,7 @@ impl Prop for C07 {
             }
             for i in confirmed {
                 let rec = &run.recs[i];
-                out.push(Violation::new("C07", "cpu_stall", format!("api={}", rec.api), format!("{} took {} ms on an image of {} bytes in three executions", rec.api, rec.micros / 1000, rec.n)));
+                out.push(Violation::new("C07", "cpu_stall", format!("api={}", rec.api), format!("{} burned {} ms of CPU on an image of {} bytes in three executions", rec.api, rec.micros / 1000, rec.n)));
             }
         }
         out.dedup_by(|a, b| a.signature() == b.signature());
@@ -77,11 +77,11 @@ impl Prop for C07 {
         shrink_case(case)
     }
     fn rule() -> String {
-        "(systematic part) every located field of a fixed list of 17 seed images x 13 boundary values, one substitution per run (thorough: all 130 364 (image, field, value) triples; quick: the first 50 000); (seeded part) same storage-fault campaign as C06 (own case stream), stream in full-transfer mode so stream calls = library calls; per API call: stream calls <= 10000 + 256n and bytes moved <= 1 MiB + 256n (n = image length), accessors make no stream call; a call taking > 2 s on an image <= 1 MiB in three executions is a CPU stall; a call that never returns is caught by the supervisor heartbeat; distinct_nontrivial = distinct (fault kind, box path:field, outcome class) triples".into()
+        "(systematic part) every located field of a fixed list of 17 seed images x 13 boundary values, one substitution per run (thorough: all 130 364 (image, field, value) triples; quick: the first 50 000); (seeded part) same storage-fault campaign as C06 (own case stream), stream in full-transfer mode so stream calls = library calls; per API call: stream calls <= 10000 + 256n and bytes moved <= 1 MiB + 256n (n = image length), accessors make no stream call; a call burning > 0.5 s of CPU time (35x the heaviest legitimate call observed) on an image <= 1 MiB in three executions is a CPU stall; a call that never returns is caught by the supervisor heartbeat; distinct_nontrivial = distinct (fault kind, box path:field, outcome class) triples".into()
     }
     fn assumptions() -> Vec<String> {
         vec![
-            "CPU-only loops are observed through confirmed wall time (> 2 s, three executions), not counted".into(),
+            "CPU-only loops are observed through confirmed CPU time (> 0.5 s, three executions), not counted".into(),
             "explores the fault neighbourhood of valid images, not all byte strings".into(),
         ]
     }
